@@ -282,6 +282,55 @@ def fresh_seq(E, name, kind, length, lo=None, hi=None):
 
 # ------------------------------------------------------------------ arithmetic
 
+def linear_form(t, coefs, const, mul=1, depth=0):
+    """accumulate t * mul into coefs {id: [coef, term]} / const[0]; returns False when t is not linear in atoms"""
+    if depth > 60:
+        return False
+    if z3.is_int_value(t):
+        const[0] += mul * t.as_long()
+        return True
+    if z3.is_app(t):
+        k = t.decl().kind()
+        if k == z3.Z3_OP_ADD:
+            return all(linear_form(c, coefs, const, mul, depth + 1) for c in t.children())
+        if k == z3.Z3_OP_SUB:
+            ch = t.children()
+            return linear_form(ch[0], coefs, const, mul, depth + 1) and all(linear_form(c, coefs, const, -mul, depth + 1) for c in ch[1:])
+        if k == z3.Z3_OP_UMINUS:
+            return linear_form(t.arg(0), coefs, const, -mul, depth + 1)
+        if k == z3.Z3_OP_MUL:
+            ch = t.children()
+            nums = [c for c in ch if z3.is_int_value(c)]
+            rest = [c for c in ch if not z3.is_int_value(c)]
+            if len(rest) == 1:
+                m = mul
+                for c in nums:
+                    m *= c.as_long()
+                return linear_form(rest[0], coefs, const, m, depth + 1)
+            if not rest:
+                m = mul
+                for c in nums:
+                    m *= c.as_long()
+                const[0] += m
+                return True
+    e = coefs.setdefault(t.get_id(), [0, t])
+    e[0] += mul
+    return True
+
+
+def exact_div(t, c):
+    """t / c as a term when every coefficient of the linear form of t is divisible by c (so the division is exact), else None"""
+    coefs, const = {}, [0]
+    if not linear_form(t, coefs, const):
+        return None
+    if const[0] % c or any(v[0] % c for v in coefs.values()):
+        return None
+    terms = [(v[1] if v[0] // c == 1 else (v[0] // c) * v[1]) for v in coefs.values() if v[0] // c != 0]
+    if const[0] // c or not terms:
+        terms.append(z3.IntVal(const[0] // c))
+    return z3.Sum(terms) if len(terms) > 1 else terms[0]
+
+
 def floordiv(E, a, b):
     if isinstance(a, int) and isinstance(b, int):
         if b == 0:
@@ -291,6 +340,9 @@ def floordiv(E, a, b):
     if isinstance(b, int):
         if b == 0:
             E.raise_(ZeroDivisionError, implicit="div0")
+        ex = exact_div(z3.simplify(za), b)
+        if ex is not None:
+            return ex
         return za / zb if b > 0 else (-za) / z3.IntVal(-b)
     if E.branch(zb == 0):
         E.raise_(ZeroDivisionError, implicit="div0")
@@ -380,9 +432,47 @@ def sym_width(E, a, b):
     return max(wa, wb)
 
 
+def low_zeros(t, depth=0):
+    """number of guaranteed zero low bits of an integer term (syntactic; 10**6 stands for 'the term is 0')"""
+    INF = 10 ** 6
+    if isinstance(t, int):
+        return INF if t == 0 else (t & -t).bit_length() - 1
+    if z3.is_int_value(t):
+        return low_zeros(t.as_long())
+    if depth > 40 or not z3.is_app(t):
+        return 0
+    k = t.decl().kind()
+    if k == z3.Z3_OP_MUL:
+        return min(INF, sum(low_zeros(c, depth + 1) for c in t.children()))
+    if k in (z3.Z3_OP_ADD, z3.Z3_OP_SUB, z3.Z3_OP_ITE):
+        ch = t.children()[1:] if k == z3.Z3_OP_ITE else t.children()
+        return min(low_zeros(c, depth + 1) for c in ch)
+    if k == z3.Z3_OP_UMINUS:
+        return low_zeros(t.arg(0), depth + 1)
+    if k == z3.Z3_OP_MOD and z3.is_int_value(t.arg(1)):
+        d = t.arg(1).as_long()
+        if d > 0 and d & (d - 1) == 0:
+            lz = low_zeros(t.arg(0), depth + 1)
+            return INF if lz >= d.bit_length() - 1 else lz
+    return 0
+
+
+def disjoint_bits(E, x, y):
+    """x >= 0 is a multiple of 2^k and 0 <= y < 2^k for some k (decided syntactically + by interval analysis)"""
+    if isinstance(x, int) or isinstance(y, int):
+        return False
+    ylo, yhi = E.interval(y)
+    xlo, _ = E.interval(x)
+    if ylo is None or yhi is None or ylo < 0 or xlo is None or xlo < 0:
+        return False
+    return low_zeros(x) >= max(yhi, 0).bit_length()
+
+
 def bit_and(E, a, b):
     if isinstance(a, int) and isinstance(b, int):
         return a & b
+    if not isinstance(a, int) and not isinstance(b, int) and (disjoint_bits(E, a, b) or disjoint_bits(E, b, a)):
+        return z3.IntVal(0)
     if isinstance(b, int) and b >= 0:
         return and_const(zint(a), b)
     if isinstance(a, int) and a >= 0:
@@ -1528,6 +1618,11 @@ def int_to_bytes(E, v, length=1, byteorder="big", *, signed=False):
         raise Unsupported("to_bytes with symbolic length")
     if n < 0:
         E.raise_(ValueError, "length argument must be non-negative", implicit="to_bytes")
+    if not isinstance(x, int):
+        # x.to_bytes(n, ...) of a value obtained by int.from_bytes(b, ...) with the same parameters is b again
+        dec = getattr(E, "int_decoded", {}).get(z3.simplify(zint(x)).get_id())
+        if dec is not None and dec[2:] == (n, bool(signed), byteorder):
+            return mk_seq("bytes", list(dec[1]))
     lo, hi = (-(1 << (8 * n - 1)) if n else 0, ((1 << (8 * n - 1)) - 1) if n else 0) if signed else (0, (1 << (8 * n)) - 1)
     if isinstance(x, int):
         try:
@@ -1538,7 +1633,9 @@ def int_to_bytes(E, v, length=1, byteorder="big", *, signed=False):
         E.raise_(OverflowError, "int too big to convert", implicit="to_bytes")
     if n == 0:
         return mk_seq("bytes", [])
-    return mk_seq("bytes", enc_int(x, n, signed, byteorder))
+    r = mk_seq("bytes", enc_int(x, n, signed, byteorder))
+    r.int_source = (x, n, signed, byteorder)      # int.from_bytes(x.to_bytes(n, ...), ...) == x for in-range x (range checked above)
+    return r
 
 
 @register(int.from_bytes)
@@ -1548,8 +1645,16 @@ def m_from_bytes(E, data, byteorder="big", *, signed=False):
         raise Unsupported("int.from_bytes of symbolic-length buffer")
     if s.length == 0:
         return 0
+    src = getattr(s, "int_source", None)
+    if src is not None and src[1] == s.length and src[2] == bool(signed) and src[3] == byteorder:
+        return wrap_int(src[0])
     bs = [raw_byte(s.kind, s.get(i)) for i in range(s.length)]
-    return wrap_int(dec_int(bs, signed, byteorder))
+    r = wrap_int(dec_int(bs, signed, byteorder))
+    if isinstance(r, SInt):
+        if not hasattr(E, "int_decoded"):
+            E.int_decoded = {}
+        E.int_decoded[r.t.get_id()] = (r.t, tuple(bs), s.length, bool(signed), byteorder)
+    return r
 
 
 # ---- random
